@@ -346,6 +346,24 @@ class Lib:
             raise EngineError("loop_it(%d) used outside that loop" % k)
         return v
 
+    def sf_loop_seq(self, ex, node, st):
+        """loop_seq(k): the sequence the k-th loop of the function iterates over (e.g. the list a generator call yields),
+        available inside that loop and after it."""
+        k = ex.eval(node.args[0], st)
+        v = st.locals.get("__seq%d__" % k)
+        if v is None:
+            raise EngineError("loop_seq(%d) used before that loop" % k)
+        return v
+
+    def sf_dict_put(self, ex, node, st):
+        """dict_put(d, k, v): the dictionary d with d[k] = v (pure; for ghost maps: let g = dict_put(g, k, v))."""
+        d = ex.eval(node.args[0], st)
+        k = ex.eval(node.args[1], st)
+        v = ex.eval(node.args[2], st)
+        if not isinstance(d, DictV):
+            raise EngineError("dict_put of something that is not a dictionary")
+        return ex.dict_store(d, k, v)
+
     def sf_seq_mean(self, ex, node, st):
         """Arithmetic mean of a numeric sequence (same partial-sum function as numpy's mean on that object)."""
         s = ex.as_seq(ex.eval(node.args[0], st), st)
@@ -433,6 +451,8 @@ class Lib:
         if c is None:
             raise EngineError("%s:L%d: callee %s has no contract" % (ex.fnname, node.lineno, rf.qualname))
         CALLED.add(rf.qualname)
+        if any(isinstance(a, Opaque) and a.kind == "yamldoc" for a in list(args) + list(kwargs.values())):
+            st.ghost["__yamlver__"] = st.ghost.get("__yamlver__", 0) + 1     # the callee may change the document
         mod = self.ctx.module(rf.module)
         fnode, cls = mod.functions[(rf.cls + "." if rf.cls else "") + rf.name]
         params = [a.arg for a in fnode.args.args]
@@ -645,7 +665,13 @@ class Lib:
         if da is not None and db is not None:
             return da == db
         if any(isinstance(x, Opaque) and x.kind == "yamldoc" for x in (a, b)):
-            return z3.Bool(uid("yamltest"))          # a YAML scalar compared with something: may go either way
+            # a YAML scalar compared with something: may go either way -- but the same entry of the same document, read in
+            # the same state of the document and compared with the same constant, goes the same way every time
+            for x, y in ((a, b), (b, a)):
+                if isinstance(x, Opaque) and x.kind == "yamldoc" and x.get("path") is not None \
+                        and isinstance(y, (str, int, bool)) and not is_z3(y):
+                    return z3.Bool("yamltest|%s|v%d|%r" % ("/".join(x.get("path")), x.get("ver", 0), y))
+            return z3.Bool(uid("yamltest"))
         raise EngineError("equality on %r / %r outside the subset" % (a, b))
 
     def index_opaque(self, ex, st, base, node):
